@@ -322,7 +322,7 @@ fn exec(cfg: &Cfg, render: bool) -> RunOutput {
     }
     h.byte(fault.map_or(0xff, |(f, _)| f as u8));
     drop(obs);
-    let out = RunOutput {
+    let out = RunOutput { blocked: false,
         steps: w.sim.steps,
         fingerprints: fps,
         outcome: h.0,
@@ -468,7 +468,7 @@ async fn late_ops_async(n: usize, how: u8, render: bool) -> RunOutput {
     }
     h.u64(u64::from(task_polls_after_fault));
     drop(obs);
-    let out = RunOutput { steps: w.sim.steps, fingerprints: fps, outcome: h.0, violations: viol, witnesses: wit, horizon: false, rendering: render.then(|| log.iter().rev().take(60).rev().cloned().collect::<Vec<_>>().join(" ")) };
+    let out = RunOutput { blocked: false, steps: w.sim.steps, fingerprints: fps, outcome: h.0, violations: viol, witnesses: wit, horizon: false, rendering: render.then(|| log.iter().rev().take(60).rev().cloned().collect::<Vec<_>>().join(" ")) };
     w.sim.teardown();
     out
 }
